@@ -3,14 +3,25 @@ From Coq Require Import List ZArith NArith Bool.
 From TarsV Require Import Base.Hex Gen.Consts Rpc.ReqId Conc.Pending.
 Import ListNotations.
 
+(* thorough tier: the wrap-around witness of C08SysProofs.outstanding_share_id_after_wrap replayed on the code: from counter 1,
+   call A (left outstanding), 2^31-3 further genRequestID calls, call B.  Observed: A's id, the last of the 2^31-3 ids, B's
+   id; whether B got its own payload; whether A got anything.  Predicted by the theorem (not recomputed: 2^31 steps):
+   2, maxInt32, 2; by routing / cleanup: B is served, A — whose entry B's registration replaced and B's return removed — is not *)
+Definition c08_wrap_case := (Z * Z * Z * bool * bool)%type.
+Definition c08_wrap_check (maxi : Z) (c : c08_wrap_case) : bool :=
+  let '(a, l, b, b_served, a_served) := c in
+  (a =? 2)%Z && (l =? maxi)%Z && (b =? 2)%Z && b_served && negb a_served.
+
 Inductive c08_case :=
 | KSeq (c : c08_seq_case)        (* single-threaded genRequestID sequence from a set counter: must equal the model exactly *)
 | KMt (c : c08_mt_case)          (* concurrent batch: what the theorems conclude + reachability window *)
+| KWrap (c : c08_wrap_case)
 | KTrace (c : c08_mtrace_case).  (* recorded call/packet/outcome trace, per connection: must be a good run of the product of pending-table machines *)
 
 Definition c08_check (c : c08_case) : bool :=
   match c with
   | KSeq x => c08_seq_check (Z.of_N c_maxInt32) x
   | KMt x => c08_mt_check (Z.of_N c_maxInt32) x
+  | KWrap x => c08_wrap_check (Z.of_N c_maxInt32) x
   | KTrace x => maccepts x
   end.
